@@ -21,10 +21,14 @@ CODES = [
     "4-Kelvin-scale",               # KELVIN SIGN: NFC-normalises to 'K'
     "4-Kelvin-scale",
     "4-purple-sаusages",            # Cyrillic a: looks equal, is not
+    "4-ﬁsh-purple",                 # LATIN SMALL LIGATURE FI: NFC-distinct from "fish" (only NFKC folds it)
+    "4-fish-purple",
+    "4-purple-sausages2",
+    "4-purple-sausages²",           # SUPERSCRIPT TWO: again only compatibility-equal
     "5-purple-sausages",                 # other nameplate
     "04-purple-sausages",                # nameplate spelled differently
 ]
-PURPOSES = ["", "a", "b", "ab", "transit-key", "é"]
+PURPOSES = ["", "a", "b", "ab", "transit-key", "é", "file-key", "ﬁle-key"]
 LENGTHS = [1, 16, 32, 64]
 
 
